@@ -124,10 +124,10 @@ def judgeWrite (before st : St) (ever : List Bool) (ws : List Chain) (wc : Chain
   let rb := before.ready
   let ra := st.ready
   let ran := dedup (st.log.map (·.1))
-  let missing := exp.filter fun e => if isImm st e then !ran.contains e else !ra.contains e
   -- a reader of a key that has never been in the collection has no field: waking it is not held against the code
   let excused (e : Nat) : Bool :=
     !(ever.getD e true) && (match logicalGet st.val (chainOf st e) with | .none => true | _ => false)
+  let missing := exp.filter fun e => (if isImm st e then !ran.contains e else !ra.contains e) && !excused e
   let spurious := ((ra.filter fun e => !rb.contains e && !exp.contains e) ++ (ran.filter fun e => !exp.contains e)).filter
     (fun e => !excused e)
   let keyed := hasKey wc || ws.any hasKey
